@@ -7,7 +7,7 @@ for s in $(ls seeded | sort -V); do
   prop=${s%%-*}
   git -C /repo apply /verif/seeded/$s/patch.diff || { echo "$s: patch does not apply"; continue; }
   out=$(bin/rdmcheck -property $prop -tier quick -fixtures=false 2>&1)
-  git -C /repo checkout -- .
+  git -C /repo checkout -- . ; git -C /repo clean -fdq -e httpClient/httpClient
   rules=$(echo "$out" | grep '^  violated' | sed 's/^  violated \([^|]*\)|\([^|]*\)|.*/\1 @ \2/' | sort -u | head -4 | tr '\n' ';' | sed 's/;$//; s/;/; /g')
   n=$(echo "$out" | grep -c '^VIOLATION')
   title=$(python3 -c "import json,sys; print(json.load(open('seeded/$s/meta.json')).get('title','')[:110].replace('|','/'))")
